@@ -791,11 +791,11 @@ func TestC02(t *testing.T) {
 		r.Count("pool_"+k.Scheme, 1)
 	}
 
-	nTx := r.N(1200, 12000)
-	nHdr := r.N(500, 5000)
-	nBlk := r.N(300, 3000)
-	nRewrite := r.N(25, 200) // objects of each kind whose every length/count field is rewritten
-	nMut := r.N(8, 10)
+	nTx := r.N(1200, 18000)
+	nHdr := r.N(500, 7000)
+	nBlk := r.N(300, 5000)
+	nRewrite := r.N(25, 300) // objects of each kind whose every length/count field is rewritten
+	nMut := r.N(8, 12)
 
 	for i := 0; i < nTx; i++ {
 		maxCode := 2048
@@ -878,7 +878,7 @@ func TestC02(t *testing.T) {
 	r.Require("at_limit_accepted_in_block", 2)
 	r.Require("oversize_refused", 4)
 	r.Require("oversize_refused_in_block", 4)
-	r.Require("hostile_decodes", r.N(40000, 400000))
+	r.Require("hostile_decodes", r.N(40000, 800000))
 	for _, k := range []string{"tx", "txd", "hdr", "hdrs", "blk"} {
 		r.Require("hostile_"+k+"_err", 1000)
 		r.Require("hostile_"+k+"_ok", 50)
